@@ -64,14 +64,15 @@ def _fingerprint(interp, rec):
 
 def run_case(res: Result, spec, idx):
     extg = spec.get("extguard", False)
-    P = gen.profile("select", p_forbidden=0.08)
+    P = gen.profile("select", p_forbidden=0.08, p_guard_obj=0.5)
     if idx % 3 == 1:
         # dotted event types with partial ('a.*') and bare ('*') wildcard handlers next to exact ones
-        P = gen.profile("select", p_forbidden=0.08, wild=True, events=["a.x", "a.y", "b"], p_handle=0.5)
+        P = gen.profile("select", p_forbidden=0.08, wild=True, events=["a.x", "a.y", "b"], p_handle=0.5,
+                        p_guard_obj=0.5)
     if idx % 3 == 2:
         # regions that can end in a final child: a finished region's active leaf is a final state,
         # and it still nominates the handlers declared on its ancestors
-        P = gen.profile("select", p_forbidden=0.08, p_final=0.3, p_parallel=0.45)
+        P = gen.profile("select", p_forbidden=0.08, p_final=0.3, p_parallel=0.45, p_guard_obj=0.3)
     if extg:
         P = gen.profile("select", p_forbidden=0.05, p_always=0.3)
     crng = rng_for(spec["seed"], ID, spec["chunk"], idx, "case")
